@@ -426,7 +426,7 @@ def stepFn (w : World) (kind : String) (rest : List String) : World × String :=
     | none => (w, "bad-op")
     | some (k, m, gidx) =>
       let (w, st) := w.touch 0
-      match st.mutate k w.nextId m with
+      match st.mutate w.df k w.nextId m with
       | .error e => (w, errLine e)
       | .ok st' =>
         let w := w.setSite 0 st'
@@ -576,7 +576,7 @@ def stepMut (w : World) (rest : List String) : World × String :=
   | none => (w, "bad-op")
   | some (s, m, gidx) =>
     let (w, st) := w.touch s
-    match st.mutate (identOfSite s) w.nextId m with
+    match st.mutate w.df (identOfSite s) w.nextId m with
     | .error e => (w, errLine e)
     | .ok st' =>
       let w := w.setSite s st'
